@@ -62,6 +62,11 @@ def templates(cfg):
     T("names.numeric_suffix_needed", lambda p, t, u: t >> p.rename({"c": "x_u"}) >> p.inner_join(u, t.a == u.a), TU3)
     T("names.numeric_suffix_nonclashing", lambda p, t, u: t >> p.rename({"c": "x_u"}) >> p.left_join(u, (t.a == u.a) & (t.b == u.b)), TU3)
     T("names.suffix_chain", lambda p, t, u: t >> p.rename({"b": "a_u", "c": "a_u_1"}) >> p.inner_join(u >> p.select(u.a), t.a == u.a), TU3)
+    # the numeric suffix has to be valid for ALL right columns at once; renaming only the join columns must not collide
+    # with another right column (F64; reported by two round-5 sub-agents)
+    T("names.numeric_suffix_revalidated", lambda p, t, u: t >> p.mutate(a_u=t.c, b_u_1=t.c + 1, a_u_2=t.c + 2) >> p.inner_join(u, t.a == u.a), TU3)
+    T("names.numeric_suffix_revalidated_left", lambda p, t, u: t >> p.mutate(x_u=t.c, a_u_1=t.c + 1, b_u_1=t.b, x_u_2=t.a) >> p.left_join(u, t.a == u.a) >> p.mutate(z=u.x), TU3)
+    T("names.partial_rename_collides_right", lambda p, t, u: t >> p.select(t.a, t.c) >> p.inner_join(u >> p.rename({"x": "a_u"}), t.a == u.a) >> p.mutate(z=u.x), TU3)
     T("names.only_join_cols_clash", lambda p, t, u: t >> p.select(t.a, t.c) >> p.left_join(u >> p.select(u.a, u.x), t.a == u.a), TU3)
     # joins after other verbs / of derived tables
     T("left.mutated_key", lambda p, t, u: t >> p.mutate(k=t.a * 2) >> p.left_join(u, p.C.k == u.a), tags=("nonlinear",))
